@@ -156,6 +156,28 @@ func main() {
 				}
 			}
 		}
+		// the two length fields of the fixed part (payload container length, QoS rules length) at their extremes, with and without contents
+		for _, cl := range []int{0, 1, 5, 0x7fff, 0x8000, 0xfff2, 0xfff8, 0xfffd, 0xfffe, 0xffff} {
+			for _, ql := range []int{0, 1, 0x00ff, 0x7fff, 0x8000, 0xfff0, 0xfff2, 0xfff7, 0xfff9, 0xfffe, 0xffff} {
+				for _, tail := range [][]byte{{}, {0x29, 5, 1, 10, 0, 0, 1}, ev.Bytes(r, 40)} {
+					sm := append([]byte{0x2e, 5, 1, 0xc2, 0x11, byte(ql >> 8), byte(ql)}, tail...)
+					dl := append([]byte{0x7e, 0x00, 0x68, 0x01, byte(cl >> 8), byte(cl)}, sm...)
+					inputs = append(inputs, ev.M{"fn": "nas-raw", "cls": "fixed-part-lengths", "raw": append([]byte{0x7e, 0x02, 0, 0, 0, 0, 0}, dl...)})
+				}
+			}
+		}
+		// setup request transfers: an IE header (id, criticality, length) with an extreme length for each IE id of the transfer, cut at each octet
+		for _, id := range []byte{130, 139, 134, 136, 0, 255} {
+			for _, ln := range []byte{0, 1, 9, 0x7f, 0x80, 0xff} {
+				for _, first := range [][]byte{{}, {0, 130, 0, 2, 0x10, 0x20}} {
+					full := append(append(append([]byte{0, 0, 2}, first...), 0, id, 0, ln), ev.Bytes(r, 12)...)
+					for cut := 3; cut <= len(full); cut += 1 + (len(full)-3)/6 {
+						inputs = append(inputs, ev.M{"fn": "transfer", "cls": "ie-header", "raw": append([]byte{}, full[:cut]...)})
+					}
+					inputs = append(inputs, ev.M{"fn": "transfer", "cls": "ie-header", "raw": full})
+				}
+			}
+		}
 		if *leads != "" {
 			if b, err := os.ReadFile(*leads); err == nil {
 				var ls [][]int
